@@ -14,7 +14,8 @@
     Get Port State (PICMG 3.0 §3.7.2.4, table 3-59) returns Link Info / State bytes only for a channel that
     carries a link; the SDR repository holds records of every type of IPMI v2.0 ch. 43, only some of which
     have an entity and an ID string; a full sensor record names one of twelve linearisation functions
-    (table 43-1 byte 24), not all of which are defined for every raw reading or threshold byte.
+    (table 43-1 byte 24), not all of which are defined for every raw reading or threshold byte - or it is
+    non-linear (70h, 71h..7Fh OEM): then there is no function at all (`LinClass`, `linConforming`, `hasValue`).
   * A sensor is named by (owner, owner LUN, number) - table 43-1 / 43-2 bytes 6-8; Get Sensor Reading reaches it
     on its LUN (`SensorKey`, `readSensorOf`), and the API twin of the printing commands (`apiTwin`).
 
@@ -189,5 +190,37 @@ def Lin.defined : Lin → Sign → Bool
   | .reciprocal, s => s != .zero
   | .sqrt, s => s != .neg
   | _, _ => true
+
+/-- table 43-1, byte 24 [6:0], ALL 128 values: 00h..0Bh name one of the twelve formulas; 70h = non-linear;
+71h..7Fh = non-linear, OEM defined; 0Ch..6Fh are reserved.  ("Linearization: [7] reserved, [6:0] enum
+(linear, ln, log10, log2, e, exp10, exp2, 1/x, sqr(x), cube(x), sqrt(x), cube-1(x)); 70h = non-linear,
+71h-7Fh = non-linear, OEM defined.") -/
+inductive LinClass where
+  | formula (l : Lin)
+  | nonLinear
+  | oemNonLinear
+  | reserved
+  deriving Repr, DecidableEq
+
+def linClass (code : Nat) : LinClass :=
+  match Lin.all.find? (fun l => l.code == code) with
+  | some l => .formula l
+  | none => if code == 0x70 then .nonLinear else if 0x71 ≤ code ∧ code ≤ 0x7f then .oemNonLinear else .reserved
+
+/-- the linearisation codes a CONFORMING controller may put into a full sensor record -/
+def linConforming (code : Nat) : Bool :=
+  match linClass code with
+  | .reserved => false
+  | _ => true
+
+/-- Does a tool that knows the record only (M, B, exponents, byte 24) have a value for x of this sign?  For a
+formula: where the function is defined.  For a non-linear sensor (70h..7Fh) never: there is no formula - the
+factors hold for one reading only and have to be fetched with Get Sensor Reading Factors (§35.5) - so such a
+tool has "na" to print, for every reading and threshold.  That is a property of the sensor, not an error of the
+BMC: the listing goes on with the next record. -/
+def hasValue (code : Nat) (s : Sign) : Bool :=
+  match linClass code with
+  | .formula l => l.defined s
+  | _ => false
 
 end PyIpmi.Spec.Cli
